@@ -1,78 +1,217 @@
 // Kani harnesses for crates/erbium-core/src/dns/router.rs (C15: longest suffix wins, order independent).
+// The selection loop lives inline in an async fn; its body is lifted verbatim into a synchronous fn by
+// /verif/lib/lift.py on every run (see that file for the purely syntactic rewrite).
 #[cfg(kani)]
 mod k {
     use super::super::*;
     use crate::dns::config::{Handler, Route};
     use crate::dns::dnspkt::*;
     include!(concat!(env!("ISOMER_ERBIUM_VERIF_DIR"), "/_common.rs"));
-    include!(concat!(env!("ISOMER_ERBIUM_VERIF_DIR"), "/_async.rs"));
 
-    fn lbl(b: &[u8]) -> Label {
-        Label::from(b.to_vec())
+    // ---- shims for the environment of the lifted body -------------------------------------------------
+    // view of the configuration: the lifted body only reads `dns_routes`
+    pub struct ConfView {
+        dns_routes: Vec<Route>,
     }
-    fn dom(ls: &[&[u8]]) -> Domain {
-        Domain::from(ls.iter().map(|l| lbl(l)).collect::<Vec<_>>())
+    pub struct ConfShim<'a>(&'a ConfView);
+    impl<'a> ConfShim<'a> {
+        fn clone(&self) -> ConfShim<'a> {
+            ConfShim(self.0)
+        }
+        fn read(&self) -> &'a ConfView {
+            self.0
+        }
+    }
+    // view of the incoming message: the lifted body only reads the question name, RD and (for logging) the id
+    pub struct QueryView {
+        qid: u16,
+        rd: bool,
+        question: Question,
+    }
+    pub struct MsgShim {
+        in_query: QueryView,
+    }
+    static mut FORWARDED_TO: Option<std::net::SocketAddr> = None;
+    pub struct NextShim;
+    impl NextShim {
+        // the next handler in the chain (cache -> upstream): records where the query would be sent
+        fn handle_query(&self, _msg: &MsgShim, addr: std::net::SocketAddr) -> Result<DNSPkt, Error> {
+            unsafe { FORWARDED_TO = Some(addr) };
+            Err(Error::Denied(String::new()))
+        }
+    }
+    pub struct RouterShim<'a> {
+        conf: ConfShim<'a>,
+        next: NextShim,
+    }
+    include!(concat!(env!("VERIF_GEN_DIR"), "/router_handle_query.rs"));
+
+    // ---- builders -------------------------------------------------------------------------------------
+    // suffix of n labels (1 octet each), octets taken from `b`
+    fn dom_n(n: u8, b: [u8; 3]) -> Domain {
+        match n {
+            0 => Domain::from(Vec::new()),
+            1 => Domain::from(vec![Label::from(vec![b[2]])]),
+            2 => Domain::from(vec![Label::from(vec![b[1]]), Label::from(vec![b[2]])]),
+            _ => Domain::from(vec![Label::from(vec![b[0]]), Label::from(vec![b[1]]), Label::from(vec![b[2]])]),
+        }
+    }
+    fn lower(x: u8) -> u8 {
+        if x >= b'A' && x <= b'Z' { x + 32 } else { x }
+    }
+    // reference suffix relation on the octet representation used by dom_n: last n labels equal, ASCII case-insensitively
+    fn ref_match(n: u8, s: [u8; 3], q: [u8; 3]) -> bool {
+        let mut i = 3 - n as usize;
+        while i < 3 {
+            if lower(s[i]) != lower(q[i]) {
+                return false;
+            }
+            i += 1;
+        }
+        true
+    }
+    fn query(qdomain: Domain, rd: bool) -> MsgShim {
+        MsgShim { in_query: QueryView { qid: 1, rd, question: Question { qdomain, qclass: CLASS_IN, qtype: RR_A } } }
+    }
+    fn server(i: u8) -> std::net::SocketAddr {
+        std::net::SocketAddr::new(std::net::IpAddr::V4(std::net::Ipv4Addr::new(192, 0, 2, i)), 53)
     }
 
-    fn query(qdomain: Domain, rd: bool) -> crate::dns::DnsMessage {
-        use erbium_net::addr::WithPort as _;
-        crate::dns::DnsMessage {
-            in_query: DNSPkt {
-                qid: 1,
-                rd,
-                tc: false,
-                aa: false,
-                qr: false,
-                opcode: OPCODE_QUERY,
-                cd: false,
-                ad: false,
-                ra: false,
-                rcode: NOERROR,
-                bufsize: 512,
-                edns_ver: None,
-                edns_do: false,
-                question: Question { qdomain, qclass: CLASS_IN, qtype: RR_A },
-                answer: vec![],
-                nameserver: vec![],
-                additional: vec![],
-                edns: None,
+    #[derive(Clone, Copy, PartialEq)]
+    enum Act {
+        Forward(u8),
+        Nx,
+    }
+
+    fn three_routes(order_fixed: bool) {
+        // three routes, one suffix each; suffix lengths 0..=3 and all label octets symbolic
+        let n: [u8; 3] = kani::any();
+        kani::assume(n[0] <= 3 && n[1] <= 3 && n[2] <= 3);
+        if order_fixed {
+            // the order that exposes a stale "best so far": shortest, longest, middle
+            kani::assume(n[0] < n[2] && n[2] < n[1]);
+        }
+        let s: [[u8; 3]; 3] = kani::any();
+        let acts: [Act; 3] = [
+            if kani::any() { Act::Nx } else { Act::Forward(1) },
+            if kani::any() { Act::Nx } else { Act::Forward(2) },
+            if kani::any() { Act::Nx } else { Act::Forward(3) },
+        ];
+        let q: [u8; 3] = kani::any();
+        let rd: bool = kani::any();
+        let mk = |i: usize| Route {
+            suffixes: vec![dom_n(n[i], s[i])],
+            dest: match acts[i] {
+                Act::Nx => Handler::ForgeNxDomain,
+                Act::Forward(k) => Handler::Forward(vec![server(k)]),
             },
-            in_size: 30,
-            local_ip: std::net::IpAddr::V4(std::net::Ipv4Addr::LOCALHOST),
-            remote_addr: std::net::Ipv4Addr::LOCALHOST.with_port(1234),
-            protocol: crate::dns::Protocol::Udp,
+        };
+        let conf = ConfView { dns_routes: vec![mk(0), mk(1), mk(2)] };
+        let h = RouterShim { conf: ConfShim(&conf), next: NextShim };
+        let msg = query(dom_n(3, q), rd);
+        unsafe { FORWARDED_TO = None };
+        let got = lifted_router_handle_query(&h, &msg);
+
+        // reference: the matching suffix with the most labels decides
+        let m = [ref_match(n[0], s[0], q), ref_match(n[1], s[1], q), ref_match(n[2], s[2], q)];
+        let mut best: Option<usize> = None;
+        let mut tie = false;
+        let mut i = 0;
+        while i < 3 {
+            if m[i] {
+                match best {
+                    None => best = Some(i),
+                    Some(b) => {
+                        if n[i] > n[b] {
+                            best = Some(i);
+                            tie = false;
+                        } else if n[i] == n[b] && acts[i] != acts[b] {
+                            tie = true; // same suffix written in two routes with different actions: documented-silent
+                        }
+                    }
+                }
+            }
+            i += 1;
         }
-    }
-
-    fn handler(routes: Vec<Route>) -> DnsRouteHandler {
-        let mut conf = crate::config::Config::default();
-        conf.dns_routes = routes;
-        DnsRouteHandler {
-            conf: std::sync::Arc::new(tokio::sync::RwLock::new(conf)),
-            next: crate::dns::cache::CacheHandler::verif_inert(),
+        kani::cover!(m[0] && m[1] && m[2] && n[0] < n[2] && n[2] < n[1], "three nested matches written shortest, longest, middle");
+        kani::cover!(best.is_none(), "no route");
+        kani::cover!(matches!(best, Some(b) if acts[b] == Act::Nx) && !rd, "forge-nxdomain with RD clear");
+        kani::cover!(matches!(best, Some(b) if matches!(acts[b], Act::Forward(_))) && rd, "forwarded");
+        let fwd = unsafe { FORWARDED_TO };
+        match best {
+            None => {
+                assert!(matches!(got, Err(Error::NoRouteConfigured)), "no matching suffix => no route (server failure)");
+                assert!(fwd.is_none(), "nothing is sent upstream without a route");
+            }
+            Some(b) if !tie => match acts[b] {
+                Act::Nx => {
+                    assert!(matches!(got, Err(Error::Blocked)), "longest matching suffix is forge-nxdomain => NXDOMAIN, whatever RD says");
+                    assert!(fwd.is_none(), "a forge-nxdomain name is never sent upstream");
+                }
+                Act::Forward(k) => {
+                    if rd {
+                        assert!(fwd == Some(server(k)), "forwarded only to the server of the longest matching route");
+                    } else {
+                        assert!(matches!(got, Err(Error::NotAuthoritative)), "forward route without RD => not forwarded");
+                        assert!(fwd.is_none(), "no recursion requested => nothing sent upstream");
+                    }
+                }
+            },
+            Some(_) => {}
         }
+        std::mem::forget(got);
+        std::mem::forget(msg);
+        std::mem::forget(conf);
     }
 
-    // Stub for the next handler in the chain (cache -> upstream sockets): the route decision is what is
-    // under test; which upstream receives the query is outside this check.
-    async fn next_stub(_s: &crate::dns::cache::CacheHandler, _msg: &crate::dns::DnsMessage, addr: std::net::SocketAddr) -> Result<DNSPkt, Error> {
-        Err(Error::Denied(if addr.port() == 53 { String::new() } else { String::new() }))
-    }
-
-    /// VERIF: {"p":"C15","tier":"quick","fns":["dns::router::DnsRouteHandler::handle_query","dns::dnspkt::Domain::ends_with","dns::dnspkt::compare_longest_suffix"],"bounds":"probe","oracle":"probe","stubs":["std::hash::RandomState::new -> fixed keys"],"covers":1,"unwind":6}
+    /// VERIF: {"p":"C15","tier":"quick","fns":["dns::router::DnsRouteHandler::handle_query (lifted_router_handle_query: body lifted from source)","dns::dnspkt::Domain::ends_with","dns::dnspkt::compare_longest_suffix"],"bounds":"3 routes x 1 suffix, suffix lengths 0..=3 labels in EVERY order (so all permutations of a table are covered), 1-octet labels with symbolic octets (any case mix), 3-label query name, RD symbolic, each route forward(to its own server) or forge-nxdomain","oracle":"outcome = action of the matching suffix with most labels: forge-nxdomain => Blocked and nothing sent upstream; forward => sent to that route's server iff RD, else NotAuthoritative; no match => NoRouteConfigured","stubs":["tokio RwLock read = identity (single task)","next handler (cache/upstream) = recording stub","log::trace! disabled (max level Off)","config and message replaced by views holding exactly the fields the body reads (dns_routes; question, rd, qid)"],"covers":4,"unwind":6}
     #[kani::proof]
     #[kani::unwind(6)]
     #[kani::stub(std::hash::RandomState::new, fixed_random_state)]
-    #[kani::stub(crate::dns::cache::CacheHandler::handle_query, next_stub)]
-    fn c15_router_probe() {
-        let routes = vec![
-            Route { suffixes: vec![dom(&[])], dest: Handler::Forward(vec![]) },
-            Route { suffixes: vec![dom(&[b"b", b"ex"])], dest: Handler::ForgeNxDomain },
-        ];
-        let h = handler(routes);
-        let msg = query(dom(&[b"a", b"b", b"ex"]), false);
-        let r = poll_once(h.handle_query(&msg));
-        kani::cover!(true, "reached");
-        assert!(matches!(r, Some(Err(Error::Blocked))), "forge-nxdomain route wins");
+    fn c15_router_longest_suffix_3routes() {
+        three_routes(false);
+    }
+
+    /// VERIF: {"p":"C15","tier":"quick","fns":["dns::router::DnsRouteHandler::handle_query (lifted)","dns::dnspkt::compare_longest_suffix"],"bounds":"as c15_router_longest_suffix_3routes restricted to tables written shortest, longest, middle (cheaper instance of the same obligation, kept as a regression probe for stale best-so-far tracking)","oracle":"as c15_router_longest_suffix_3routes","stubs":["tokio RwLock read = identity","next handler = recording stub"],"covers":4,"unwind":6}
+    #[kani::proof]
+    #[kani::unwind(6)]
+    #[kani::stub(std::hash::RandomState::new, fixed_random_state)]
+    fn c15_router_longest_suffix_nested_order() {
+        three_routes(true);
+    }
+
+    /// VERIF: {"p":"C15","tier":"quick","fns":["dns::router::DnsRouteHandler::handle_query (lifted)"],"bounds":"one route with TWO suffixes (lengths 1 and 2, symbolic octets) plus one catch-all route (empty suffix); 3-label symbolic query; RD symbolic","oracle":"the multi-suffix route wins whenever either of its suffixes matches; the empty suffix matches everything else","stubs":["tokio RwLock read = identity","next handler = recording stub"],"covers":2,"unwind":6}
+    #[kani::proof]
+    #[kani::unwind(6)]
+    #[kani::stub(std::hash::RandomState::new, fixed_random_state)]
+    fn c15_router_multi_suffix_route() {
+        let s1: [u8; 3] = kani::any();
+        let s2: [u8; 3] = kani::any();
+        let q: [u8; 3] = kani::any();
+        let rd: bool = kani::any();
+        let conf = ConfView {
+            dns_routes: vec![
+                Route { suffixes: vec![dom_n(0, s1)], dest: Handler::Forward(vec![server(9)]) },
+                Route { suffixes: vec![dom_n(1, s1), dom_n(2, s2)], dest: Handler::ForgeNxDomain },
+            ],
+        };
+        let h = RouterShim { conf: ConfShim(&conf), next: NextShim };
+        let msg = query(dom_n(3, q), rd);
+        unsafe { FORWARDED_TO = None };
+        let got = lifted_router_handle_query(&h, &msg);
+        let blocked = ref_match(1, s1, q) || ref_match(2, s2, q);
+        kani::cover!(blocked && !ref_match(1, s1, q), "second suffix of the route matches");
+        kani::cover!(!blocked && rd, "falls through to the catch-all");
+        if blocked {
+            assert!(matches!(got, Err(Error::Blocked)), "any suffix of the forge-nxdomain route beats the catch-all");
+            assert!(unsafe { FORWARDED_TO }.is_none(), "blocked names never go upstream");
+        } else if rd {
+            assert!(unsafe { FORWARDED_TO } == Some(server(9)), "the empty suffix matches everything");
+        } else {
+            assert!(matches!(got, Err(Error::NotAuthoritative)), "no RD => not forwarded");
+        }
+        std::mem::forget(got);
+        std::mem::forget(msg);
+        std::mem::forget(conf);
     }
 }
